@@ -212,7 +212,10 @@ UniquesIn(ms) == {m.args[1].v : m \in {x \in ms : /\ x.mem = S_NameOwnerChanged 
 \* it, a name no real bus hands out stands for it)
 RECURSIVE Digits(_)
 Digits(n) == IF n < 10 THEN <<48 + n>> ELSE Append(Digits(n \div 10), 48 + (n % 10))
-AnnouncedUniques == UniquesIn(AllObs) \cup (IF NextIsRound THEN UniquesIn(ObsOf(Log[l + 1])) ELSE {})
+\* (... or as the stamped sender of something it managed to send)
+SendersIn(ms) == {m.snd : m \in {x \in ms : x.snd # <<>> /\ x.snd[1] = cColon}}
+AnnouncedUniques == UniquesIn(AllObs) \cup SendersIn(AllObs)
+                    \cup (IF NextIsRound THEN UniquesIn(ObsOf(Log[l + 1])) \cup SendersIn(ObsOf(Log[l + 1])) ELSE {})
 HelloNames(s, op) == IF op.got # <<>> THEN {op.got} ELSE AnnouncedUniques \cup {<<cColon, 48, 46>> \o Digits(l * 10 + s)}
 
 \* internal state reported by the in-process harness (registry queues, primary's allow_replacement, rule counts)
